@@ -104,6 +104,11 @@ def run(c, p):
     if op == "concat":
         others = [C[cname](*mk_fields(c, cname, v)) for v in c["more"]]
         return fields_obs(np.concatenate([obj] + others), names)
+    if op == "concat_mixed":
+        # the first table's column a is narrower than the second's: numpy's promoted element type, every entry unchanged
+        first = C[cname](*[arr(c["vals"][f], "uint8" if f == "a" else "int64") for f in names])
+        others = [C[cname](*mk_fields(c, cname, v)) for v in c["more"]]
+        return fields_obs(np.concatenate([first] + others), names)
     if op == "eq":
         other = C[cname](*mk_fields(c, cname, c["more"][0]))
         return obj == other
@@ -139,6 +144,9 @@ def expected(c, p):
         n = len(fs[names[0]])
         return tuple(tuple(fs[f][i] for f in names) for i in range(n))
     if op == "concat":
+        parts = [fs] + [dict(zip(names, mk_fields(c, cname, v))) for v in c["more"]]
+        return tuple(np.concatenate([pt[f] for pt in parts]) for f in names)
+    if op == "concat_mixed":
         parts = [fs] + [dict(zip(names, mk_fields(c, cname, v))) for v in c["more"]]
         return tuple(np.concatenate([pt[f] for pt in parts]) for f in names)
     if op == "astype":
@@ -179,11 +187,14 @@ def gen(E, p):
             c["sel"] = {"t": t, "v": [E.int(f"i{j}", -n, n - 1) for j in range(k)]}
         elif t == "mask":
             c["sel"] = {"t": "mask", "v": [E.bool(f"m{i}") for i in range(n)]}
-    if op in ("concat", "eq"):
+    if op == "concat_mixed":
+        for v in c["vals"]["a"]:
+            E.assume(z3.And(v >= 0, v <= 99))          # fits the narrow element type of the first table
+    if op in ("concat", "eq", "concat_mixed"):
         c["more"] = []
         for j in range(p.get("k", 1)):
             nj = n if op == "eq" else E.concretize(E.int(f"n{j}", 0, p["n"]))
-            c["more"].append(cellsfor(f"y{j}", nj))
+            c["more"].append(cellsfor(f"y{j}", nj) if op != "concat_mixed" else {f: [E.int(f"y{j}{f}{i}", -999, 999) for i in range(nj)] for f in names})
     return c, n
 
 
@@ -276,6 +287,7 @@ def jobs(tier, seed):
         out.append(dict(cls=cls, op="concat", n=2, k=1))
         out.append(dict(cls=cls, op="eq", n=n, k=1))
     out.append(dict(cls="Two", op="concat", n=2, k=2))
+    out.append(dict(cls="Two", op="concat_mixed", n=2, k=1))
     out.append(dict(cls="Two", op="badlen", n=2))
     out.append(dict(cls="Three", op="badlen", n=2))
     out.append(dict(cls="Two", op="astype", n=n))
